@@ -14,7 +14,7 @@ type GenOpts struct {
 	HostAlts  []string // other spellings that are routed too (e.g. "origin.test:80")
 	Scheme    string   // "http" (plain listener) or "https" (inside MITM)
 	Last      bool     // last request of the connection: may ask for close / be HTTP/1.0 without keep-alive
-	ID        string   // correlation id put in X-Case-Id
+	ID        string   // correlation id put in Case-Id
 	AllowBody bool
 	ExtraName []string // extra header names worth drawing (rule-named fields etc.)
 }
@@ -119,7 +119,7 @@ func GenRequest(r *core.Rand, o GenOpts) *Request {
 	default:
 		fs = append(fs, rig.Field{Name: caseVariant(r, "Host"), Value: host})
 	}
-	fs = append(fs, rig.Field{Name: "X-Case-Id", Value: o.ID})
+	fs = append(fs, rig.Field{Name: "Case-Id", Value: o.ID})
 
 	// end-to-end fields, some repeated
 	n := r.Range(0, 6)
